@@ -19,6 +19,10 @@ def main() -> int:
     from harness.core import Ctx, MachineryError
 
     cov.start()
+    if os.environ.get("VERIF_CHAOS"):
+        from harness import chaos
+
+        chaos.install()
 
     mod = importlib.import_module(f"harness.props.{pid.lower()}")
     ctx = Ctx(pid, a.tier, seed, level=getattr(mod, "LEVEL", "model_checking"))
